@@ -89,3 +89,25 @@ def units(prop, tier):
     if prop == 'C18':
         return [pyvc_unit(prop, 'number.' + t, registry, [N + t]) for t in C18_TARGETS]
     return []
+
+
+# ----------------------------------------------------------------------------------------------------------------------
+# bytes_to_long: PROVED (16 obligations) against be(): the contract every other area assumes (contracts/base.py).
+# NOT PROVED: long_to_bytes.  Exactly what is missing: (1) a PREPEND accumulator list abstraction -- the function builds its
+#   result with result.insert(0, chunk) in three loops of symbolic trip count, reads and overwrites result[0] and joins; the
+#   engine's list abstractions are fixed-shape lists and the APPEND-only accumulator (count, last, joined); (2) a model of
+#   bytes.lstrip(b'\x00') (uninterpreted suffix with: zero prefix removed, first byte non-zero, same be() value); (3) the lemma
+#   "b[0] != 0 ==> be(b) >= 256**(len(b)-1)" for the minimal-length clause.  The loop invariants would be
+#   be(joined) + n * 256**len(joined) == n0 and len(joined) == blocksize - bsr.  It stays ASSUMED (contracts/_intcommon.py
+#   ltb_contract: value, non-empty, upper/lower bound by length, minimal for blocksize 0, exactly blocksize bytes when n fits).
+# NOT PROVED: getPrime, getStrongPrime, isPrime, _rabinMillerTest (legacy; floats in isPrime), GCD (== math.gcd, a builtin).
+#
+# Vacuity / strength check (tools/mut.py, exit 1; obligation that caught it):
+#  C14 bytes_to_long: `acc << 32` -> `<< 31`                 -> bytes_to_long.loop_inv_preserved.acc_be_s_4__k
+#      bytes_to_long: '>I' -> '<I'                            -> bytes_to_long.loop_inv_preserved.acc_be_s_4__k
+#      bytes_to_long: zero padding appended instead of prepended -> bytes_to_long.ensures.value
+#      ceil_div: `q != 0` -> `q > 1`                          -> ceil_div.ensures.ceil
+#  C18 getRandomInteger: `>> (8-odd_bits)` -> `% (1 << odd_bits)` -> getRandomInteger.ensures.value
+#      getRandomInteger: randfunc((N>>3) + 1)                 -> getRandomInteger.ensures.reads, value, range
+#      getRandomRange: `value > range_ + 1`                   -> getRandomRange.ensures.range
+#      getRandomNBitInteger: `2 ** (N-2)`                     -> exit 2 (possibly negative exponent: outside the model)
